@@ -314,19 +314,22 @@ fn short_history(rng: &mut Rng, ctx: &mut Ctx) -> Result<(), (Bad, Vec<String>)>
                 // prefixes and namespaces (default namespace in scope, redeclared / undeclared below): every node
                 // name read back must be the id of its expanded name
                 let locals = ["a", "b", "id", "space", "p", "A", "title"];
-                let uris = ["urn:A", "A", "u", "a"];
+                let uris = ["urn:A", "A", "u", "a", "u v"];
+                // a space inside a declaration value may be written as a literal TAB or LF (attribute-value normalisation)
+                let spell = |rng: &mut Rng, u: &str| -> String { u.chars().map(|c| if c == ' ' { *rng.pick(&[' ', '\t', '\n']) } else { c }).collect() };
                 let dflt: Option<&str> = if rng.chance(2, 3) { Some(uris[rng.below(uris.len())]) } else { None };
                 let pfx = ["p", "q", "a"][rng.below(3)];
                 let puri = uris[rng.below(uris.len())];
                 // (qname, expected expanded name) of elements in document order, with their attributes
                 let mut expect: Vec<((String, String), Vec<(String, String)>)> = Vec::new();
+                let mut pis: Vec<String> = Vec::new();
                 let mut text = String::new();
                 let root_local = locals[rng.below(locals.len())];
                 let root_pref = rng.chance(1, 3);
                 let root_q = if root_pref { format!("{}:{}", pfx, root_local) } else { root_local.to_string() };
-                text.push_str(&format!("<{} xmlns:{}=\"{}\"", root_q, pfx, puri));
+                text.push_str(&format!("<{} xmlns:{}=\"{}\"", root_q, pfx, spell(rng, puri)));
                 if let Some(d) = dflt {
-                    text.push_str(&format!(" xmlns=\"{}\"", d));
+                    text.push_str(&format!(" xmlns=\"{}\"", spell(rng, d)));
                 }
                 text.push('>');
                 expect.push(((root_local.to_string(), if root_pref { puri.to_string() } else { dflt.unwrap_or("").to_string() }), Vec::new()));
@@ -339,7 +342,7 @@ fn short_history(rng: &mut Rng, ctx: &mut Ctx) -> Result<(), (Bad, Vec<String>)>
                     let q = if pref { format!("{}:{}", pfx, l) } else { l.to_string() };
                     text.push_str(&format!("<{}", q));
                     if let Some(o) = own {
-                        text.push_str(&format!(" xmlns=\"{}\"", o));
+                        text.push_str(&format!(" xmlns=\"{}\"", spell(rng, o)));
                     }
                     let mut attrs: Vec<(String, String)> = Vec::new();
                     let mut seen: Vec<String> = Vec::new();
@@ -356,6 +359,13 @@ fn short_history(rng: &mut Rng, ctx: &mut Ctx) -> Result<(), (Bad, Vec<String>)>
                     }
                     text.push_str("/>");
                     expect.push(((l.to_string(), if pref { puri.to_string() } else { eff.to_string() }), attrs));
+                    // a processing instruction whose target is also used as an element / attribute name:
+                    // targets are names in no namespace whatever default namespace is in scope
+                    if rng.chance(1, 3) {
+                        let t = locals[rng.below(locals.len())];
+                        text.push_str(&format!("<?{} d?>", t));
+                        pis.push(t.to_string());
+                    }
                 }
                 text.push_str(&format!("</{}>", root_q));
                 log.push(format!("parse({:?})", text));
@@ -380,17 +390,33 @@ fn short_history(rng: &mut Rng, ctx: &mut Ctx) -> Result<(), (Bad, Vec<String>)>
                 let read = guard(|| {
                     let x = &target.xot;
                     let mut out: Vec<(NameId, Vec<NameId>)> = Vec::new();
+                    let mut pi_ids: Vec<NameId> = Vec::new();
                     for n in x.descendants(doc) {
                         if x.is_element(n) {
                             out.push((x.node_name(n).unwrap(), x.attributes(n).keys().collect()));
+                        } else if let Some(pi) = x.processing_instruction(n) {
+                            pi_ids.push(pi.target());
                         }
                     }
-                    out
+                    (out, pi_ids)
                 });
-                let read = match read {
+                let (read, pi_ids) = match read {
                     Ok(r) => r,
                     Err(p) => return Err((("panic".into(), p.short()), log.clone())),
                 };
+                if pi_ids.len() != pis.len() {
+                    return Err((("parsed-name-id-wrong".into(), format!("{} processing instructions read back, {} written", pi_ids.len(), pis.len())), log.clone()));
+                }
+                for (id, t) in pi_ids.iter().zip(pis.iter()) {
+                    let got = target.xot.name_ns_str(*id);
+                    if (got.0, got.1) != (t.as_str(), "") {
+                        return Err((("parsed-name-id-wrong".into(), format!("processing instruction target {} carries the id of {{{}}}{}", t, got.1, got.0)), log.clone()));
+                    }
+                    tr!(target.note_name(t, "", *id, "parse"));
+                    if target.xot.name(t) != Some(*id) {
+                        return Err((("lookup-misses-registered".into(), format!("name({:?}) does not find the id of the parsed PI target", t)), log.clone()));
+                    }
+                }
                 if read.len() != expect.len() {
                     return Err((("parsed-name-id-wrong".into(), format!("{} elements read back, {} written", read.len(), expect.len())), log.clone()));
                 }
